@@ -111,6 +111,15 @@ Example C15_world_example :
   /\ ~ denotes_w demo_world 0 (WMember 1 8) 3.
 Proof. exact demo_world_ok. Qed.
 
+(* Sensitivity of the statement to the file lookup: resolving the plain global name in the file
+   being inferred yields 3 for `other.buf_len`, a value the expression does not denote. *)
+Theorem C15_world_lookup_in_inferring_file_is_wrong :
+  const_data_w_selfish demo_world 0 10 0 (WMember 1 8) = Ok (Some (DInt 3))
+  /\ const_data_w demo_world 10 0 (WMember 1 8) = Ok (Some (DInt 5))
+  /\ ~ denotes_w demo_world 0 (WMember 1 8) 3.
+Proof. exact selfish_lookup_is_wrong. Qed.
+Print Assumptions C15_world_lookup_in_inferring_file_is_wrong.
+
 Example C15_example :
   let e := CLocal false (Some (CGlobal false true (CLocal false (Some (CLit (LInt 3)))))) in
   wf e = true /\ has_char e = false /\ array_len e = Ok (Accepted (DInt 3))
